@@ -1,5 +1,5 @@
-import TunnoxModel.Proofs.C19Own
-import TunnoxModel.Proofs.C19Look
+import TunnoxModel.Proofs.C19SimK
+import TunnoxModel.Proofs.C19Fault
 /-!
 # C19 — a public domain routes only to its single rightful owner
 
@@ -9,11 +9,10 @@ variant of `DeleteMapping` (the tree after the `fix:` commit); the `.asFound` va
 A schedule is an arbitrary list of thread ids; histories are arbitrary lists of create / delete / update /
 lookup operations per client thread; hosts and names are arbitrary strings.
 
-`holds` (Spec/C19.lean) is the conjunction of five clauses.  Proved below for every input:
-`own`, `auth`, `final` (single owner, owner-only delete, final store).  The clauses `look` and `claim`
-are evaluated by the driver on every observation of the real code and of the model but are proved here
-only in state-level form for every reachable state (`C19_routing_sound`, `C19_lookup_repo_stage`, `C19_host_key`);
-see `C19_main_partial` for what is missing.
+`holds` (Spec/C19.lean) is the conjunction of five clauses (`own`, `auth`, `claim`, `look`, `final`); `C19_main`
+proves all five for every input (threads, histories, schedules), with the single hypothesis `variant = .repaired`.
+The proof is a simulation between the monitor's state and the model's configuration, carried through every slot of
+every run (`Proofs/C19Own`, `C19SimF`, `C19SimU`, `C19SimK` on top of the inductive invariant `Inv`).
 -/
 namespace Tunnox.C19
 open Gen
@@ -131,33 +130,43 @@ theorem C19_foreign_delete_refused (cf : Config) (s : Store) (n cl : Nat) (r : R
 
 /-! ### all schedules -/
 
-/-- The invariant and the ownership simulation hold along every run of the repaired model. -/
+/-- Invariant and all monitor simulations together. -/
+structure AllSim (i : Input) (c : Cfg) (m : Mon) : Prop where
+  inv : Inv i.cf (allOps i) (i.reg ++ i.cf.cloud) c
+  own : Sim c m
+  fly : SimF c m
+  upd : SimU i.cf.now c m
+  look : SimK c m
+
+/-- The invariant and the monitor simulations hold along every run of the repaired model. -/
 theorem C19_run (i : Input) (hv : i.cf.variant = .repaired) :
-    ∃ c, (Inv i.cf (allOps i) (i.reg ++ i.cf.cloud) c ∧ Sim c (monRun i (model i).slots)) ∧
-      (model i).final = finalOf i c.st :=
-  model_induction i (fun c m => Inv i.cf (allOps i) (i.reg ++ i.cf.cloud) c ∧ Sim c m)
-    ⟨Inv.init i, Sim.init i⟩
-    (fun _ _ t h => ⟨h.1.step t, h.2.step i h.1 hv t⟩)
+    ∃ c, AllSim i c (monRun i (model i).slots) ∧ (model i).final = finalOf i c.st :=
+  model_induction i (AllSim i)
+    ⟨Inv.init i, Sim.init i, SimF.init i, SimU.init _ i, SimK.init i⟩
+    (fun _ _ t h => ⟨h.inv.step t, h.own.step i h.inv hv t, h.fly.step i h.inv t, h.upd.step i h.inv rfl t,
+      h.look.step i h.inv hv h.own h.fly h.upd t⟩)
 
 /-- **Single owner.**  For every set of client threads, every history of create / delete / update / lookup
 operations on arbitrary (overlapping) names and every interleaving of their storage steps: two mappings whose
 `CreateMapping` returned ok and whose own client has not asked for their deletion never have the same full
 domain — many clients claiming one name at once included. -/
 theorem C19_single_owner (i : Input) (hv : i.cf.variant = .repaired) : holdsOwn i (model i) = true := by
-  obtain ⟨c, ⟨_, hS⟩, _⟩ := C19_run i hv
-  exact hS.own
+  obtain ⟨c, h, _⟩ := C19_run i hv
+  exact h.own.own
 
 /-- **Only the owning client can delete.**  In every interleaving, a delete by another client that is invoked
 while the mapping is certainly owned, and returns while it still is, is answered FORBIDDEN (and, by
 `C19_single_owner` / `C19_final_store`, leaves index and record in place). -/
 theorem C19_owner_only_delete (i : Input) (hv : i.cf.variant = .repaired) : holdsAuth i (model i) = true := by
-  obtain ⟨c, ⟨_, hS⟩, _⟩ := C19_run i hv
-  exact hS.auth
+  obtain ⟨c, h, _⟩ := C19_run i hv
+  exact h.own.auth
 
 /-- **Final store.**  After every run, each mapping that is still certainly owned is indexed under its full
 domain and stored with its client (so a lookup of its name reaches it and nobody else can claim the name). -/
 theorem C19_final_store (i : Input) (hv : i.cf.variant = .repaired) : holdsFinal i (model i) = true := by
-  obtain ⟨c, ⟨hI, hS⟩, hf⟩ := C19_run i hv
+  obtain ⟨c, h, hf⟩ := C19_run i hv
+  have hI := h.inv
+  have hS := h.own
   unfold holdsFinal finalOK
   rw [hf, List.all_eq_true]
   intro x hx
@@ -178,18 +187,33 @@ theorem C19_final_store (i : Input) (hv : i.cf.variant = .repaired) : holdsFinal
     rw [List.mem_range']
     exact ⟨x.1 - 1, by omega, by omega⟩
 
-/-- The proved part of the property for every input of the repaired model.
-Full statement (checked by the driver on every case, not yet proved for all schedules):
-`∀ i, i.cf.variant = .repaired → holds i (model i) = true`, i.e. additionally `holdsClaim` (a create refused
-with ALREADY_EXISTS overlapped a possible holder of the name) and `holdsLook` (a routed lookup names client and
-target of a live mapping for the name the Host denotes; known-inactive / expired / deleted mappings never route;
-registry and cloud control answer only when no mapping of the repository certainly owns the name).  What is
-missing is the simulation for the `look`/`claim` monitor fields (deadness at invocation, quiet status knowledge,
-precedence of a certain owner over registry/cloud, possible holders); their state-level content for every
-reachable state is `C19_routing_sound` with `C19_lookup_repo_stage` and `C19_host_key`. -/
-theorem C19_main_partial (i : Input) (hv : i.cf.variant = .repaired) :
-    (holdsOwn i (model i) && holdsAuth i (model i) && holdsFinal i (model i)) = true := by
-  rw [C19_single_owner i hv, C19_owner_only_delete i hv, C19_final_store i hv]; rfl
+/-- **Claimable again.**  In every interleaving, a `CreateMapping` answered ALREADY_EXISTS overlapped a possible
+holder of that full domain: a mapping created for it and not yet released (released = a delete by its own client,
+invoked after the create had returned, came back ok), or another create for the same name in flight.  Hence after
+the owner's delete has returned and with nobody else claiming, a create by anyone succeeds. -/
+theorem C19_claimable_again (i : Input) (hv : i.cf.variant = .repaired) : holdsClaim i (model i) = true := by
+  obtain ⟨c, h, _⟩ := C19_run i hv
+  exact h.fly.claim
+
+/-- **Routing.**  In every interleaving, every routed lookup observation — judged with what an outside observer knows
+at that point of the history — names client and target of (a) a mapping of the repository whose full domain the
+Host denotes, whose create has returned or is in flight, that had not been released when the lookup was invoked
+(after the owner's delete has returned the name no longer routes), that was not known-inactive / expired for the
+whole lookup, with its created target or one written by an update; or (b) a routable registry / cloud-control
+mapping for that name, and then only if no mapping of the repository certainly owned the name during the lookup. -/
+theorem C19_lookup_observations (i : Input) (hv : i.cf.variant = .repaired) : holdsLook i (model i) = true := by
+  obtain ⟨c, h, _⟩ := C19_run i hv
+  exact h.look.look
+
+/-- **C19, the whole monitor statement.**  For every set of client threads, every history of create / delete /
+update / lookup operations per thread (arbitrary names, hosts, clients, ids), every registry / cloud table and every
+schedule of storage steps (then drained), the observation of the repaired model satisfies `holds`: the very
+predicate the runner evaluates on the observations of the real code. -/
+theorem C19_main (i : Input) (hv : i.cf.variant = .repaired) : holds i (model i) = true := by
+  unfold holds
+  rw [C19_single_owner i hv, C19_owner_only_delete i hv, C19_claimable_again i hv, C19_lookup_observations i hv,
+    C19_final_store i hv]
+  rfl
 
 /-- In every reachable state of every interleaving (both variants): index entries point at mappings born under
 that very name, stored records agree with the origin of their number, and (repaired) every mapping whose own
@@ -245,6 +269,31 @@ theorem C19_deleted_stays_unindexed (i : Input) (ts ts' : List Nat) (t n cl : Na
       obtain ⟨o, ho⟩ := hb
       exact ih _ (hI.step t') ⟨o, hI.born_mono t' n o ho⟩ (hI.unindexed_step t' n ⟨o, ho⟩ hu)
   exact key ts' _ hI hb hu
+
+/-! ### rollback: a single storage failure inside `CreateMapping` -/
+
+/-- **A failed create leaves no index / record / list entry.**  For every history run before it (`i`), every
+create input and every position `k` of one failing storage call (Incr, SetNX, Set record, the two list appends; also
+the refusals without any failure): whenever the create does not answer ok, the observed store entries afterwards
+equal those before (`holdsFault`, the predicate the driver applies to the real code run through the fault gate);
+only the id counter may have advanced. -/
+theorem C19_failed_create_leaves_nothing (i uni : Input) (cl : Nat) (sub base th : String) (tp k : Nat) :
+    holdsFault (modelFault i uni cl sub base th tp k) = true :=
+  holdsFault_model i uni cl sub base th tp k
+
+/-- Field-level form for an arbitrary store whose next record slot is empty. -/
+theorem C19_failed_create_rolls_back (cf : Config) (s : Store) (cl : Nat) (sub base th : String) (tp k : Nat)
+    (code : String) (hfresh : s.data (s.next + 1) = none)
+    (h : (createFault cf s cl sub base th tp k).2 = .err code) :
+    (createFault cf s cl sub base th tp k).1.index = s.index ∧ (createFault cf s cl sub base th tp k).1.data = s.data ∧
+    (createFault cf s cl sub base th tp k).1.clientList = s.clientList ∧
+    (createFault cf s cl sub base th tp k).1.globalList = s.globalList :=
+  let r := createFault_err_same cf s cl sub base th tp k code hfresh h
+  ⟨r.1, r.2.1, r.2.2.1, r.2.2.2.1⟩
+
+/-- Non-vacuity: the record write failing after a successful claim is rolled back. -/
+example : (createFault ⟨.repaired, 0, ["t.net"], []⟩ (initStore ⟨⟨.repaired, 0, ["t.net"], []⟩, [], [], []⟩) 1 "a" "t.net" "h" 80 3).2
+    = .err Gen.coreerrors.CodeStorageError := by decide +kernel
 
 /-! ### the tree as found: the witness -/
 
